@@ -495,8 +495,9 @@ def check(prop, tier, seed, budget_s=None):
     if harness_errors:
         for h in harness_errors[:5]:
             print('HARNESS-ERROR %s' % h, flush=True)
-        return 2
     if n_viol:
-        return 1
+        return 1     # a violation was demonstrated (replay file written), whatever else went wrong
+    if harness_errors:
+        return 2     # never 0 when the machinery itself failed
     print('OK property=%s held on everything explored' % prop)
     return 0
